@@ -22,18 +22,21 @@ type tok string // "mu:<lock>", "in:<once>", "after:<once>"
 
 type heldTok struct {
 	t      tok
-	relIdx int // index of the deferred call that releases it (-1: none registered)
-	param  int // >=0: the lock is parameter #param of the enclosing declaration (summaries)
+	relIdx int     // index of the deferred call that releases it (-1: none registered)
+	param  int     // >=0 (or -2 = receiver): the lock is a parameter of node `of` (summaries)
+	of     *fnNode // the node whose parameter it is
 }
 
 type lockRef struct {
 	name  string
 	param int // -1 if absolute
+	of    *fnNode
 }
 
 type funcVal struct {
 	lit     *fnNode     // a closure literal (already a node)
 	fn      *types.Func // a declared function / method value
+	recv    *aval       // abstract value of a method value's receiver (m.Lock keeps the lock)
 	foreign bool        // method value on another instance
 	opaque  *types.Var  // parameter of func type (client supplied function)
 	opNode  *fnNode     // node that declares the opaque parameter
@@ -45,10 +48,24 @@ type aval struct {
 	funcs []*funcVal
 	ptrTo string // address of a guarded struct field (location name), for pointer escapes
 	ptrTy *types.Named
+	known int  // +1: a boolean known to be true, -1: known to be false (domain assumptions)
+	isNil bool // the literal nil
+	// a struct value built by a composite literal that carries function values in its fields
+	// (fun.Iterator, pubsub.Distributor): the functions escape when the struct does, and run in
+	// place when a method of the struct calls them
+	holder  *holder
+	hprefix string
+}
+
+type holder struct {
+	typ     string
+	fields  map[string]*aval
+	where   map[string]string
+	escaped bool
 }
 
 func (a *aval) empty() bool {
-	return a == nil || (a.lock == nil && a.once == "" && len(a.funcs) == 0 && a.ptrTo == "")
+	return a == nil || (a.lock == nil && a.once == "" && len(a.funcs) == 0 && a.ptrTo == "" && a.known == 0 && !a.isNil && a.holder == nil)
 }
 
 func merge(a, b *aval) *aval {
@@ -59,6 +76,14 @@ func merge(a, b *aval) *aval {
 		return a
 	}
 	out := &aval{lock: a.lock, once: a.once, ptrTo: a.ptrTo, ptrTy: a.ptrTy}
+	if a.known == b.known {
+		out.known = a.known
+	}
+	out.isNil = a.isNil && b.isNil
+	out.holder, out.hprefix = a.holder, a.hprefix
+	if out.holder == nil {
+		out.holder, out.hprefix = b.holder, b.hprefix
+	}
 	if out.lock == nil {
 		out.lock = b.lock
 	}
@@ -140,23 +165,24 @@ type fnNode struct {
 	depth   int
 
 	analyzed, analyzing bool
-	netAcq                []heldTok
-	netRel                []heldTok // releases of locks not acquired locally (param-relative or absolute)
-	results               []*aval
-	recvVar               *types.Var
-	params                []*types.Var
-	declared              map[types.Object]bool
-	body                  *ast.BlockStmt
-	ftype                 *ast.FuncType
-	firstCapture          map[types.Object]token.Pos
-	Assumes               []tok
-	StrictAssumes         []tok
-	ctorPhase             bool
-	reach                 bool
-	reachStrict           bool
-	resultsEscaped        bool
-	paramCalls            []paramCall
-	Ctx                   string
+	netAcq              []heldTok
+	netRel              []heldTok // releases of locks not acquired locally (param-relative or absolute)
+	results             []*aval
+	recvVar             *types.Var
+	params              []*types.Var
+	declared            map[types.Object]bool
+	body                *ast.BlockStmt
+	ftype               *ast.FuncType
+	firstCapture        map[types.Object]token.Pos
+	Assumes             []tok
+	StrictAssumes       []tok
+	ctorPhase           bool
+	reach               bool
+	reachStrict         bool
+	resultsEscaped      bool
+	paramCalls          []paramCall
+	chain               string
+	Ctx                 string
 }
 
 func (n *fnNode) declRoot() *fnNode {
@@ -168,19 +194,21 @@ func (n *fnNode) declRoot() *fnNode {
 }
 
 type domain struct {
-	cfg       *DomainCfg
-	a         *analysis
-	nodes     map[string]*fnNode
-	order     []*fnNode
-	rootTypes map[string]bool
-	home      map[string]bool
-	ctors     map[string]bool
-	excluded  map[string]string
-	optional  map[string]bool
-	shared    map[string]bool
-	unknowns  []string
-	notes     []string
-	usedLocs  map[string]bool
+	cfg          *DomainCfg
+	a            *analysis
+	nodes        map[string]*fnNode
+	order        []*fnNode
+	rootTypes    map[string]bool
+	home         map[string]bool
+	ctors        map[string]bool
+	excluded     map[string]string
+	optional     map[string]bool
+	shared       map[string]bool
+	unknowns     []string
+	notes        []string
+	usedLocs     map[string]bool
+	optionalUsed map[string]bool
+	ignoredUsed  map[string]int
 }
 
 type analysis struct {
@@ -241,13 +269,13 @@ func (w *walker) has(t tok) bool {
 	return false
 }
 
-func (w *walker) acquire(t tok, param int) {
+func (w *walker) acquire(t tok, param int, of *fnNode) {
 	if !w.has(t) {
-		w.held = append(w.held, heldTok{t: t, relIdx: -1, param: param})
+		w.held = append(w.held, heldTok{t: t, relIdx: -1, param: param, of: of})
 	}
 }
 
-func (w *walker) release(t tok, pos token.Pos, param int) {
+func (w *walker) release(t tok, pos token.Pos, param int, of *fnNode) {
 	for i, x := range w.held {
 		if x.t == t {
 			w.held = append(append([]heldTok{}, w.held[:i]...), w.held[i+1:]...)
@@ -255,7 +283,7 @@ func (w *walker) release(t tok, pos token.Pos, param int) {
 		}
 	}
 	// releasing something not acquired here: part of the function's net effect (a `with` helper)
-	w.n.netRel = append(w.n.netRel, heldTok{t: t, param: param})
+	w.n.netRel = append(w.n.netRel, heldTok{t: t, param: param, of: of})
 }
 
 func copyHeld(h []heldTok) []heldTok { return append([]heldTok{}, h...) }
@@ -335,7 +363,7 @@ func (d *domain) bindParams(n *fnNode, info *types.Info) {
 				}
 				switch {
 				case syncKind(derefType(v.Type())) == "mutex":
-					n.env.vars[v] = &aval{lock: &lockRef{name: baseKey(n.Key) + "$" + v.Name(), param: k}}
+					n.env.vars[v] = &aval{lock: &lockRef{name: baseKey(n.Key) + "$" + v.Name(), param: k, of: n}}
 				case syncKind(derefType(v.Type())) == "once":
 					n.env.vars[v] = &aval{once: baseKey(n.Key) + "$" + v.Name()}
 				case isFuncType(v.Type()):
@@ -624,10 +652,16 @@ func (w *walker) stmt(s ast.Stmt) {
 		w.stmt(x.Init)
 		always, never := w.condKnown(x.Cond)
 		w.expr(x.Cond, "rd")
+		latch := w.latchObserved(x.Cond)
 		var outs [][]heldTok
 		var deads []bool
 		if !never {
-			h, dd := w.branch(func() { w.block(x.Body.List) })
+			h, dd := w.branch(func() {
+				if latch != "" {
+					w.acquire(tok("latch:"+latch), -1, nil)
+				}
+				w.block(x.Body.List)
+			})
 			outs, deads = append(outs, h), append(deads, dd)
 		}
 		if !always {
@@ -838,8 +872,19 @@ func endsWithBreak(list []ast.Stmt) bool {
 	}
 }
 
-// condKnown: conditions on an optional mutex are decided by the domain assumption "synchronised"
+// condKnown: conditions decided by what is known about the operands — a mutex of a domain with an
+// optional mutex is non-nil (the domain is the *synchronised* variant), a known function value is
+// non-nil, the literal nil is nil, a boolean parameter bound to such a condition keeps its value.
 func (w *walker) condKnown(c ast.Expr) (always, never bool) {
+	c = unparen(c)
+	if id, ok := c.(*ast.Ident); ok {
+		if obj := w.info.Uses[id]; obj != nil {
+			if v := w.n.env.get(obj); v != nil {
+				return v.known > 0, v.known < 0
+			}
+		}
+		return
+	}
 	be, ok := c.(*ast.BinaryExpr)
 	if !ok || (be.Op != token.NEQ && be.Op != token.EQL) {
 		return
@@ -852,7 +897,7 @@ func (w *walker) condKnown(c ast.Expr) (always, never bool) {
 	} else {
 		return
 	}
-	id, ok := other.(*ast.Ident)
+	id, ok := unparen(other).(*ast.Ident)
 	if !ok {
 		return
 	}
@@ -861,13 +906,64 @@ func (w *walker) condKnown(c ast.Expr) (always, never bool) {
 		return
 	}
 	v := w.n.env.get(obj)
-	if v == nil || v.lock == nil || !w.d.optional[v.lock.name] {
+	if v == nil {
+		return
+	}
+	nonNil, isNil := false, v.isNil
+	if v.lock != nil && len(w.d.optional) > 0 {
+		nonNil = true
+		w.d.optionalUsed[w.where(c.Pos())] = true
+	}
+	if len(v.funcs) > 0 {
+		nonNil = true
+		for _, fv := range v.funcs {
+			if fv.opaque != nil {
+				nonNil = false
+			}
+		}
+	}
+	if !nonNil && !isNil {
 		return
 	}
 	if be.Op == token.NEQ {
-		return true, false
+		return nonNil, isNil
 	}
-	return false, true
+	return isNil, nonNil
+}
+
+// latchName: the configured latch an identifier denotes ("" if none)
+func (w *walker) latchName(e ast.Expr) string {
+	id, ok := unparen(e).(*ast.Ident)
+	if !ok {
+		return ""
+	}
+	v, ok := w.info.Uses[id].(*types.Var)
+	if !ok {
+		return ""
+	}
+	dn := w.declaringNode(v)
+	if dn == nil {
+		return ""
+	}
+	name := baseKey(dn.Key) + "$" + v.Name()
+	if _, ok := w.d.cfg.Latches[name]; ok {
+		return name
+	}
+	return ""
+}
+
+// latchObserved: `X.CompareAndSwap(a, a)` on a configured latch X — true means "the final value a
+// has been stored": the then-branch runs after the latch was set
+func (w *walker) latchObserved(c ast.Expr) string {
+	ce, ok := unparen(c).(*ast.CallExpr)
+	if !ok || len(ce.Args) != 2 {
+		return ""
+	}
+	sx, ok := unparen(ce.Fun).(*ast.SelectorExpr)
+	if !ok || sx.Sel.Name != "CompareAndSwap" || types.ExprString(ce.Args[0]) != types.ExprString(ce.Args[1]) {
+		return ""
+	}
+	return w.latchName(sx.X)
 }
 
 func (w *walker) zeroValue(t types.Type, name string) *aval {
@@ -936,8 +1032,17 @@ func (w *walker) assign(x *ast.AssignStmt) {
 			continue
 		}
 		w.expr(l, "wr")
-		// storing a function value / guarded pointer into memory: it escapes
+		// storing a function value / guarded pointer into memory: it escapes, unless the memory is
+		// a struct value we are still tracking (a holder)
 		if !v.empty() {
+			if sx, ok := unparen(l).(*ast.SelectorExpr); ok {
+				if h, pre := w.holderOf(sx.X); h != nil && !h.escaped {
+					k := pre + sx.Sel.Name
+					h.fields[k] = merge(h.fields[k], v)
+					h.where[k] = w.where(l.Pos())
+					continue
+				}
+			}
 			w.escape(v, "stored at "+w.where(l.Pos()), l.Pos())
 		}
 	}
